@@ -7,13 +7,13 @@ tail position are replaced by the continuation of the call site (`x = e`, `x += 
 themselves address by name are left in place.  Inlined nodes take the line of the call site plus a small fraction, so that ordering
 comparisons by line keep working and reports point at the call site."""
 import ast
-import copy
+from .model import clone
 
 # private names the rules resolve as anchors of their own (never inlined)
 ANCHORS = {
     "_solve_with_wrapper", "_eval_points_and_function_values", "_is_already_evaluated_on_point",
     "_separate_leaf_functions_regarding_their_need_on_point", "_recover_dual_values", "_expression_to_solver",
-    "_get_Gram_from_mosek", "_store", "_streamprinter", "_reset_classes",
+    "_get_Gram_from_mosek", "_streamprinter", "_reset_classes",
 }
 MAX_STMTS = 60
 
@@ -88,7 +88,7 @@ class _Subst(ast.NodeTransformer):
 
     def visit_Name(self, node):
         if node.id in self.mapping and isinstance(node.ctx, ast.Load):
-            return copy.deepcopy(self.mapping[node.id])
+            return clone(self.mapping[node.id])
         if node.id in self.renames:
             return ast.copy_location(ast.Name(id=self.renames[node.id], ctx=node.ctx), node)
         return node
@@ -167,7 +167,7 @@ class Inliner:
                 mapping[p] = a
             else:
                 nm = p + tag
-                pre.append(ast.Assign(targets=[ast.Name(id=nm, ctx=ast.Store())], value=copy.deepcopy(a)))
+                pre.append(ast.Assign(targets=[ast.Name(id=nm, ctx=ast.Store())], value=clone(a)))
                 mapping[p] = ast.Name(id=nm, ctx=ast.Load())
                 if p in assigned:
                     # later stores to the parameter go to the same fresh local
@@ -177,7 +177,7 @@ class Inliner:
             if p in assigned:
                 renames[p] = p + tag
                 mapping.pop(p, None)
-        body = [copy.deepcopy(s) for s in helper.body]
+        body = [clone(s) for s in helper.body]
         body = [_Subst(mapping, renames).visit(s) for s in body]
 
         def replace_returns(stmts):
@@ -211,10 +211,43 @@ class Inliner:
         self.inlined.append(("%s" % caller.name, helper.name, int(stmt.lineno)))
         return new
 
+    def hoist_args(self, caller, s):
+        """`obj.m(..., self._h(x), ...)` as a statement  ->  `tmp = self._h(x); obj.m(..., tmp, ...)`"""
+        if not (isinstance(s, ast.Expr) and isinstance(s.value, ast.Call)):
+            return None
+        outer = s.value
+        for k, a in enumerate(outer.args):
+            if isinstance(a, ast.Call):
+                helper, recv = self.helper_for(caller, a)
+                if helper is not None:
+                    self.counter += 1
+                    tmp = "arg__h%d" % self.counter
+                    pre = ast.Assign(targets=[ast.Name(id=tmp, ctx=ast.Store())], value=a)
+                    ast.copy_location(pre, s)
+                    for n in ast.walk(pre):
+                        if not hasattr(n, "lineno"):
+                            n.lineno, n.col_offset = s.lineno, 0
+                    new_outer = clone(outer)
+                    new_outer.args[k] = ast.Name(id=tmp, ctx=ast.Load(), lineno=s.lineno, col_offset=0)
+                    post = ast.Expr(value=new_outer)
+                    ast.copy_location(post, s)
+                    post.lineno = s.lineno + 0.5
+                    for n in ast.walk(post):
+                        n.lineno = s.lineno + 0.5
+                    return [pre, post]
+        return None
+
     def process_block(self, caller, stmts):
         changed = False
         out = []
-        for s in stmts:
+        todo = list(stmts)
+        while todo:
+            s = todo.pop(0)
+            h = self.hoist_args(caller, s)
+            if h is not None:
+                todo = h + todo
+                changed = True
+                continue
             rep = None
             call = None
             if isinstance(s, ast.Expr) and isinstance(s.value, ast.Call):
@@ -223,10 +256,10 @@ class Inliner:
             elif isinstance(s, ast.Assign) and isinstance(s.value, ast.Call):
                 call = s.value
                 tg = s.targets
-                cont = (lambda e, tg=tg: [ast.Assign(targets=copy.deepcopy(tg), value=e if e is not None else ast.Constant(value=None))])
+                cont = (lambda e, tg=tg: [ast.Assign(targets=clone(tg), value=e if e is not None else ast.Constant(value=None))])
             elif isinstance(s, ast.AugAssign) and isinstance(s.value, ast.Call):
                 call = s.value
-                cont = (lambda e, s=s: [ast.AugAssign(target=copy.deepcopy(s.target), op=s.op, value=e if e is not None else ast.Constant(value=None))])
+                cont = (lambda e, s=s: [ast.AugAssign(target=clone(s.target), op=s.op, value=e if e is not None else ast.Constant(value=None))])
             elif isinstance(s, ast.Return) and isinstance(s.value, ast.Call):
                 call = s.value
                 cont = (lambda e: [ast.Return(value=e)])
@@ -268,4 +301,22 @@ def inline_private_helpers(repo, passes=3):
                 any_change = True
         if not any_change:
             break
+    # a helper all of whose uses were inlined is no longer a unit of analysis of its own
+    helpers = {h for (_c, h, _l) in inl.inlined}
+    if helpers:
+        used = set()
+        for fn in repo.all_functions():
+            for n in ast.walk(fn):
+                if isinstance(n, ast.Attribute) and n.attr in helpers:
+                    used.add(n.attr)
+                if isinstance(n, ast.Name) and n.id in helpers and isinstance(n.ctx, ast.Load):
+                    used.add(n.id)
+        for m in repo.modules.values():
+            for name in list(m.functions):
+                if name in helpers and name not in used:
+                    del m.functions[name]
+            for c in m.classes.values():
+                for name in list(c.methods):
+                    if name in helpers and name not in used:
+                        del c.methods[name]
     return inl.inlined
